@@ -571,40 +571,57 @@ def fixture_cases() -> List[Tuple[str, str, Dict[str, str]]]:
 
 
 def worker(args) -> Dict[str, Any]:
-    argv, shard, n_shards, n_models, n_instances, n_patterns, n_strings = args
+    argv, shard, n_shards, n_models, n_instances, n_patterns, n_strings, t0 = args
     chk = harness.Check("C13", "exploration", RULE, argv)
+    chk.t0 = t0  # budgets count from the start of the parent, warm-up included
     budget = chk.wall_budget(150, 780)
+
+    def run_models(models: List[Tuple[str, str, Optional[Dict[str, str]]]], until: float) -> None:
+        for idx, (name, text, snippets) in enumerate(models):
+            if chk.elapsed() > until:
+                chk.count("models_skipped_for_budget", len(models) - idx)
+                break
+            check_model(chk, name, text, chk.rng("inst", name), n_instances,
+                        n_xmllint=chk.pick(6, 12), fixture_snippets=snippets, deadline=until)
+
     try:
-        # ---- (c) patterns first: cheap, and they name the mechanisms
+        # ---- hand-written models first: they are few and name known mechanisms
+        first: List[Tuple[str, str, Optional[Dict[str, str]]]] = []
+        targeted = targeted_models()
+        first += [(n, t, None) for k, (n, t) in enumerate(targeted) if k % n_shards == shard]
+        run_models(first, budget)
+        # ---- (c) patterns: cheap
         lab = xschema.PatternLab()
         patterns = pattern_workload(chk, n_patterns)
         shrinks_left = [chk.pick(6, 20)]
         mine = patterns[shard::n_shards]
         for idx, (source, pattern) in enumerate(mine):
-            if chk.elapsed() > budget * 0.45:
+            if chk.elapsed() > budget * 0.5:
                 chk.count("patterns_skipped_for_budget", len(mine) - idx)
                 break
             check_pattern(chk, lab, source, pattern, chk.rng("strings", source, pattern), n_strings, shrinks_left)
-        # ---- (a) + (b) models
+        # ---- (a) + (b) generated models, the repository's own models and xsd fixtures
         models: List[Tuple[str, str, Optional[Dict[str, str]]]] = []
-        if shard == 0:
-            models += [(n, t, None) for n, t in targeted_models()]
-        if shard == 1 % n_shards:
-            models += [(n, t, None) for n, t in corpus.small_common()]
-        if shard == 2 % n_shards:
-            models += [(n, t, s) for n, t, s in fixture_cases()
-                       if chk.tier == "thorough" or "v3" not in n]
+        extra: List[Tuple[str, str, Optional[Dict[str, str]]]] = []
+        extra += [(n, t, None) for n, t in corpus.small_common()]
+        extra += [(n, t, s) for n, t, s in fixture_cases()
+                  if chk.tier == "thorough" or "v3" not in n]
+        extra = [e for k, e in enumerate(extra) if k % n_shards == shard]
+        mmg: List[Tuple[str, str, Optional[Dict[str, str]]]] = []
         for i in range(shard, n_models, n_shards):
             m = xschema.generate_schema_model(chk.rng("model", i), mmg_profile(i))
-            models.append((f"mmg/{chk.seed}/{i}", m.text, None))
+            mmg.append((f"mmg/{chk.seed}/{i}", m.text, None))
             for k, v in m.features.items():
                 chk.hist("mmg_features", k, v)
-        for idx, (name, text, snippets) in enumerate(models):
-            if chk.elapsed() > budget:
-                chk.count("models_skipped_for_budget", len(models) - idx)
-                break
-            check_model(chk, name, text, chk.rng("inst", name), n_instances,
-                        n_xmllint=chk.pick(6, 12), fixture_snippets=snippets, deadline=budget)
+        # interleave so that a short budget still sees some of each
+        while mmg or extra:
+            if mmg:
+                models.append(mmg.pop(0))
+            if mmg:
+                models.append(mmg.pop(0))
+            if extra:
+                models.append(extra.pop(0))
+        run_models(models, budget)
     except Exception:  # noqa
         chk.harness_error("worker failed: " + traceback.format_exc()[-1500:])
     return chk.export()
@@ -620,7 +637,7 @@ def main(argv) -> int:
     xschema.warm_up()
     with concurrent.futures.ProcessPoolExecutor(max_workers=n_shards) as pool:
         jobs = [
-            pool.submit(worker, (list(argv), s, n_shards, n_models, n_instances, n_patterns, n_strings))
+            pool.submit(worker, (list(argv), s, n_shards, n_models, n_instances, n_patterns, n_strings, chk.t0))
             for s in range(n_shards)
         ]
         for job in jobs:
